@@ -33,10 +33,9 @@ Definition a_bad_certificate : N := 42.
 
 (* make([]byte, n) then rawMsg[0..3] = ..., rawMsg[4:]: the index expressions with Go's bounds rule *)
 Definition make_and_header (n : N) : res N :=
-  let len := N.to_nat n in
-  let chk (i : nat) := if (i <? len)%nat then Ok tt else Panic P_INDEX in
-  do _ <- chk 0%nat; do _ <- chk 1%nat; do _ <- chk 2%nat; do _ <- chk 3%nat;
-  if (len <? 4)%nat then Panic P_SLICE else Ok n.
+  let chk (i : N) := if i <? n then Ok tt else Panic P_INDEX in
+  do _ <- chk 0; do _ <- chk 1; do _ <- chk 2; do _ <- chk 3;
+  if n <? 4 then Panic P_SLICE else Ok n.
 
 (* Ok k = k bytes allocated for rawMsg (0 = refused before the allocation, Err = alert sent) *)
 Definition decompress_alloc (capped : bool) (advertised : list N) (alg ulen : N) (open_ok : bool) : res N :=
